@@ -21,6 +21,28 @@ theorem C15_in_order (d : Xml) (v : RoView) (h : roView d = .ok v) :
           (fun it => (Xml.childText (some it) "itemID", Xml.childText (some it) "itemSlug"))) ∧
       v.roSlug = Xml.childText (some rc) "roSlug" ∧ v.completed = completed d := stories_in_order d v h
 
+/-- C15: every field of every item agrees with the document - ID, slug, type, object ID, MOS ID, and
+    the note: the first `studioCommand type="note"` at any depth under the item's payload -/
+theorem C15_items_agree (d : Xml) (v : RoView) (h : roView d = .ok v) :
+    ∃ rc, rcOf d = some rc ∧
+      v.stories.map (fun s => s.items.map (fun it => (it.id, it.slug, it.type, it.objectId, it.mosId, it.note))) =
+        (rc.findall "story").map (fun s => (s.findall "item").map (fun it =>
+          (Xml.childText (some it) "itemID", Xml.childText (some it) "itemSlug", Xml.childText (some it) "objType",
+           Xml.childText (some it) "objID", Xml.childText (some it) "mosID", noteSpec it))) := items_agree d v h
+
+/-- C15: an item without payload, or whose payload holds no note command, has no note -/
+theorem C15_note_absent (it : Xml)
+    (h : payloadOf it = none ∨ ∀ p, payloadOf it = some p →
+      p.descendants.find? (fun c => c.tag == "studioCommand" && c.attr "type" == some "note") = none) :
+    noteSpec it = none := by
+  unfold noteSpec
+  cases hp : payloadOf it with
+  | none => rfl
+  | some p =>
+    rcases h with h | h
+    · rw [hp] at h; cases h
+    · simp [h p hp]
+
 /-- C15: absent optional data yields None instead of an exception -/
 theorem C15_absent_is_none (d : Xml) (v : RoView) (h : roView d = .ok v) :
     ∃ rc, rcOf d = some rc ∧
